@@ -42,6 +42,7 @@ N_DocSummary == <<5, 68, 111, 99, 117, 109, 101, 110, 116, 83, 117, 109, 109, 97
 N_Signature == <<5, 68, 105, 103, 105, 116, 97, 108, 83, 105, 103, 110, 97, 116, 117, 114, 101>>
 N_SigEx == <<5, 77, 115, 105, 68, 105, 103, 105, 116, 97, 108, 83, 105, 103, 110, 97, 116, 117, 114, 101, 69, 120>>
 N_StringPool == <<95, 83, 116, 114, 105, 110, 103, 80, 111, 111, 108>>
+Cjk(n) == [k \in 1..n |-> 26085]                \* n x "日": n UTF-16 units, 3n bytes (31 fit, 32 do not)
 LongOdd == <<97>> \o [k \in 1..40 |-> 233]      \* "a" + 40 x "é": 81 bytes, 41 UTF-16 units
 StreamNames ==
   { <<97>>, <<48, 48>>, <<14336>>, Packable(3), Packable(62), Packable(63), <<97, 32, 98>>, <<233>>, <<18431>>, <<18432>>, <<18495>>,
@@ -50,9 +51,9 @@ StreamNames ==
     \* the ends of the packing alphabet ('0' = 0, '_' = 63) as the odd character of a run and as a pair
     <<48>>, <<95>>, <<97, 98, 48>>, <<97, 98, 95>>, <<95, 95>>,
     \* refused names that are long in BYTES, with multi-byte characters at every alignment (error paths quote the name)
-    LongOdd, [k \in 1..32 |-> 8364], <<97, 47>> \o [k \in 1..24 |-> IF k % 2 = 1 THEN 20013 ELSE 25991], <<97, 98>> \o [k \in 1..20 |-> 128512] }
+    LongOdd, <<18433>>, Cjk(21), Cjk(31), Cjk(32), [k \in 1..32 |-> 8364], <<97, 47>> \o [k \in 1..24 |-> IF k % 2 = 1 THEN 20013 ELSE 25991], <<97, 98>> \o [k \in 1..20 |-> 128512] }
 StreamNamesQ == { <<97>>, <<48, 48>>, <<14336>>, Packable(62), Packable(63), <<233>>, <<201, 97>>, <<47, 233>>, <<18496, 97>>, <<>>,
-                  N_Summary, N_Signature, T, <<48>>, <<97, 98, 95>>, LongOdd }
+                  N_Summary, N_Signature, T, <<48>>, <<97, 98, 95>>, LongOdd, <<18433>>, Cjk(31), Cjk(32) }
 Eq(c, v) == Bin("eq", Col(c), Lit(v))
 
 E(op, args) == [op |-> op, args |-> args]
@@ -150,7 +151,9 @@ Alphabet ==
                                 \* (the same dotted path), a table named like another table's column, a prefix pair
          {Cre(<<80>>, <<ColK, MkCol(<<81, 46, 82>>, "s", 8, TRUE, FALSE, TRUE, <<>>, <<>>, C_Identifier, <<>>)>>),
           Cre(<<80, 46, 81>>, <<ColK, MkCol(<<82>>, "i16", 0, FALSE, FALSE, FALSE, <<0, 9>>, <<>>, <<>>, <<>>)>>),
-          Cre(<<82>>, <<MkCol(<<80>>, "s", 0, FALSE, TRUE, FALSE, <<>>, <<>>, <<>>, <<<<97>>, <<98>>>>), ColW>>),
+          \* R's second column refers to table P (foreign key) and has a range: dropping P leaves R's description alone
+          Cre(<<82>>, <<MkCol(<<80>>, "s", 0, FALSE, TRUE, FALSE, <<>>, <<>>, <<>>, <<<<97>>, <<98>>>>),
+                        MkCol(W, "i32", 0, TRUE, FALSE, FALSE, <<0, 9>>, <<<<80>>, 1>>, <<>>, <<>>)>>),
           Drp(<<80>>), Ins(<<80, 46, 81>>, <<<<IntV(1), IntV(9)>>>>),
           E("Flush", [x |-> 0]), E("IntoInner", [x |-> 0]), E("Reopen", [x |-> 0])}
     [] Cfg = "keysq" ->         \* quick subset of "keys": key not first, re-keying updates incl. a column assigned twice
@@ -164,6 +167,9 @@ Alphabet ==
           Upd(T, <<<<K, IntV(7)>>>>, True),                        \* leading key column, no condition: the rows are then ordered by the rest of the key
           Upd(T, <<<<K, IntV(1)>>>>, Eq(K, IntV(2))),               \* in front of the existing key (1, "a"): (1, null) sorts first
           Upd(T, <<<<V, sa>>>>, Eq(K, IntV(2))),                    \* trailing key column: (2, "a")
+          Ins(T, <<<<IntV(1), Null, Null>>>>),
+          Upd(T, <<<<V, Null>>>>, Eq(K, IntV(1))),                  \* null assigned to a key column: (1, "a") and (1, null) would collide
+          Upd(T, <<<<V, sb>>, <<V, sa>>>>, Eq(K, IntV(2))),         \* a string column assigned twice: the first value leaves no trace in the pool
           E("IntoInner", [x |-> 0]), E("Reopen", [x |-> 0])}
     [] Cfg = "keys" ->          \* key shapes: key not first, composite with nullable string part
          {Cre(U, TabU), Cre(T, TabC), Drp(U), Drp(T)}
